@@ -37,11 +37,21 @@ Definition point : Type := option (Z * Z).
 Module F.
   (* field arithmetic mod p on BigZ; all values kept in [0, p) *)
   Definition bp : bigZ := BigZ.of_Z secp_p.
-  Definition mul (a b : bigZ) : bigZ := BigZ.modulo (BigZ.mul a b) bp.
+  (* reduction of z in [0, p^2) using p = 2^256 - c, c = 2^32 + 977: fold the high part twice, then one
+     conditional subtraction (about twice as fast as a general division; validated by the vectors below
+     and by every correspondence run) *)
+  Definition c : bigZ := BigZ.of_Z 0x1000003D1.
+  Definition m256 : bigZ := BigZ.of_Z (2 ^ 256 - 1).
+  Definition s256 : bigZ := BigZ.of_Z 256.
+  Definition red (z : bigZ) : bigZ :=
+    let z1 := BigZ.add (BigZ.mul (BigZ.shiftr z s256) c) (BigZ.land z m256) in
+    let z2 := BigZ.add (BigZ.mul (BigZ.shiftr z1 s256) c) (BigZ.land z1 m256) in
+    if BigZ.ltb z2 bp then z2 else BigZ.sub z2 bp.
+  Definition mul (a b : bigZ) : bigZ := red (BigZ.mul a b).
   (* operands in [0, p): one conditional correction instead of a division *)
   Definition add (a b : bigZ) : bigZ := let s := BigZ.add a b in if BigZ.ltb s bp then s else BigZ.sub s bp.
   Definition sub (a b : bigZ) : bigZ := let d := BigZ.sub a b in if BigZ.ltb d BigZ.zero then BigZ.add d bp else d.
-  Definition sqr (a : bigZ) : bigZ := mul a a.
+  Definition sqr (a : bigZ) : bigZ := red (BigZ.square a).
   Definition dbl (a : bigZ) : bigZ := add a a.
   Definition is0 (a : bigZ) : bool := BigZ.eqb a BigZ.zero.
   Fixpoint pow (a : bigZ) (e : positive) : bigZ :=
